@@ -97,3 +97,17 @@ _reg(
     "Exploration: every single-precision export is scanned for DOUBLE anywhere; double exports are compared with JAX-x64 at an accuracy "
     "(7.5e-9 relative) that a float32 round trip cannot meet; the process-wide x64 flag is observed around every call.",
 )
+
+_reg(
+    "C11",
+    "exploration",
+    "cases = registered testcases (quick: first single-precision testcase per component at opsets {21, 24, 25|26, 27} and its own "
+    "pinned opset; thorough: all variants at every opset 21..27, a quarter also at 13/17/20 report-only). For each (program, opset) "
+    "the export's declared opset, every node's schema at that opset (existence, attributes, input/output arity), checker(full), strict "
+    "inference, ORT load and ORT outputs vs the default-opset export are checked. evaluations = (program, opset) exports examined; "
+    "non-trivial = export at an opset other than 23 with >= 1 standard-domain node; distinct = (program, opset). Exports that raise are acceptable and counted.",
+    (1500, 1200, 15000, 12000),
+    "artefact invariant monitor over opsets: onnx.defs schema lookup at the declared version for every node + checker + strict inference + ORT cross-opset differential",
+    "DESIGN.md 3/C11",
+    "Exploration over every registered component x opsets 21..27. ORT 1.30 cannot execute opset > 24 fully; for those opsets the numeric part is inconclusive and only schema/checker/inference decide.",
+)
